@@ -394,7 +394,7 @@ impl Machine {
             Expr::Ratio(a, b) => Ok(RVal::Num(ex(*a as i128, *b as i128))),
             Expr::Real(s) => Ok(RVal::Num(RNum::Re(s.parse::<f32>().map_err(|_| RErr::OutOfClass("real literal".into()))?))),
             Expr::Bool(b) => Ok(RVal::Bool(*b)),
-            Expr::Str(s) => Ok(RVal::Str(s.clone())),
+            Expr::Str(s) | Expr::RawStr(s) => Ok(RVal::Str(s.clone())),
             Expr::Char(c) => Ok(RVal::Char(*c)),
             Expr::Quote(d) => Ok(self.datum(d)),
             Expr::VecLit(items) => Ok(self.datum(&Datum::Vector(items.clone()))),
